@@ -127,8 +127,9 @@ func (x *XRefParser) FindXRef() (int64, error) {
 	}
 
 	// Parse the offset after startxref
+	// PDF end-of-line markers are CR, LF or CRLF (ISO 32000-1 7.2.3)
 	afterStartXRef := content[idx+len("startxref"):]
-	lines := strings.Split(afterStartXRef, "\n")
+	lines := splitPDFLines(afterStartXRef)
 	if len(lines) < 2 {
 		return 0, fmt.Errorf("invalid startxref format")
 	}
@@ -141,6 +142,43 @@ func (x *XRefParser) FindXRef() (int64, error) {
 	}
 
 	return offset, nil
+}
+
+// scanPDFLines is a bufio.SplitFunc that splits on any PDF end-of-line marker:
+// CR, LF or CRLF (ISO 32000-1 7.2.3). The marker is not part of the token.
+func scanPDFLines(data []byte, atEOF bool) (advance int, token []byte, err error) {
+	if atEOF && len(data) == 0 {
+		return 0, nil, nil
+	}
+	for i, b := range data {
+		switch b {
+		case '\n':
+			return i + 1, data[:i], nil
+		case '\r':
+			if i+1 < len(data) {
+				if data[i+1] == '\n' {
+					return i + 2, data[:i], nil
+				}
+				return i + 1, data[:i], nil
+			}
+			if atEOF {
+				return i + 1, data[:i], nil
+			}
+			// need one more byte to tell CR from CRLF
+			return 0, nil, nil
+		}
+	}
+	if atEOF {
+		return len(data), data, nil
+	}
+	return 0, nil, nil
+}
+
+// splitPDFLines splits s at CR, LF and CRLF end-of-line markers.
+func splitPDFLines(s string) []string {
+	s = strings.ReplaceAll(s, "\r\n", "\n")
+	s = strings.ReplaceAll(s, "\r", "\n")
+	return strings.Split(s, "\n")
 }
 
 // ParseXRef parses the xref table at the given byte offset.
@@ -178,6 +216,7 @@ func (x *XRefParser) ParseXRef(offset int64) (*XRefTable, error) {
 // streams start with an object definition like "5 0 obj".
 func (x *XRefParser) isXRefStream() (bool, error) {
 	scanner := bufio.NewScanner(x.reader)
+	scanner.Split(scanPDFLines)
 	if !scanner.Scan() {
 		return false, fmt.Errorf("failed to read first line")
 	}
@@ -207,6 +246,7 @@ func (x *XRefParser) isXRefStream() (bool, error) {
 // The format is: "xref\n<subsections>\ntrailer\n<dict>\nstartxref\n<offset>\n%%EOF"
 func (x *XRefParser) parseTraditionalXRef() (*XRefTable, error) {
 	scanner := bufio.NewScanner(x.reader)
+	scanner.Split(scanPDFLines)
 
 	// Read "xref" keyword
 	if !scanner.Scan() {
